@@ -1,6 +1,7 @@
 package main
 
 import (
+	"bytes"
 	"errors"
 
 	"github.com/goose-lang/goose"
@@ -73,7 +74,9 @@ func verifC17Translate() {
 		verifErrs = append(verifErrs, err)
 		which = append(which, k)
 		failed = append(failed, fails)
-		want := coqFileContents(f)
+		var wb bytes.Buffer
+		f.Write(&wb)
+		want := wb.Bytes()
 		expect = append(expect, want)
 		p := verifChoose(priorStates)
 		prior = append(prior, p)
@@ -108,9 +111,17 @@ func verifC17Translate() {
 		}
 	}
 	verifResetOutput()
-	code := verifCatchExit(func() { translate([]string{"./..."}, "/out", ".", ignore, goose.TranslationConfig{}) })
-	verifAssert("exit/zero-iff-all-translated-and-written", (code == -1) == verifAnd(!anyErr, !anyBlocked))
-	verifAssert("exit/one-on-error", code == -1 || code == 1)
+	// the command is driven through main (flags and arguments), not through its internal functions
+	verifSetFlagBool("typecheck", false)
+	verifSetFlagBool("source-comments", false)
+	verifSetFlagBool("skip-interfaces", false)
+	verifSetFlagBool("ignore-errors", ignore)
+	verifSetFlagString("out", "/out")
+	verifSetFlagString("dir", ".")
+	verifSetArgs("./...")
+	code := verifCatchExit(main)
+	verifAssert("exit/zero-iff-all-translated-and-written", verifSuccess(code) == verifAnd(!anyErr, !anyBlocked))
+	verifAssert("exit/one-on-error", verifSuccess(code) || code == 1)
 	log := verifWriteLog()
 	for i := 0; i < n; i++ {
 		path := verifOutPaths[which[i]]
@@ -135,6 +146,9 @@ func verifC17Translate() {
 	verifCover("c17/translate")
 }
 
+// verifSuccess: the process ends with status 0 (returning from main or calling os.Exit(0))
+func verifSuccess(code int) bool { return code == -1 || code == 0 }
+
 func verifContains(s, sub string) bool {
 	for i := 0; i+len(sub) <= len(s); i++ {
 		if s[i:i+len(sub)] == sub {
@@ -148,7 +162,14 @@ func verifC17PatternError() {
 	verifFiles, verifErrs = nil, nil
 	verifPatternErr = errors.New("patterns matched no packages")
 	verifResetOutput()
-	code := verifCatchExit(func() { translate([]string{"./nothing"}, "/out", ".", verifChoose(2) == 1, goose.TranslationConfig{}) })
+	verifSetFlagBool("typecheck", false)
+	verifSetFlagBool("source-comments", false)
+	verifSetFlagBool("skip-interfaces", false)
+	verifSetFlagBool("ignore-errors", verifChoose(2) == 1)
+	verifSetFlagString("out", "/out")
+	verifSetFlagString("dir", ".")
+	verifSetArgs("./nothing")
+	code := verifCatchExit(main)
 	verifAssert("pattern-error/exit-one", code == 1)
 	verifAssert("pattern-error/no-writes", verifWriteLog() == "")
 	verifCover("c17/pattern-error")
@@ -167,7 +188,7 @@ func verifC17Flags() {
 	verifSetArgs("./a", "./b/...")
 	verifCalls = 0
 	code := verifCatchExit(main)
-	verifAssert("flags/exit-zero-on-empty-success", code == -1)
+	verifAssert("flags/exit-zero-on-empty-success", verifSuccess(code))
 	verifAssert("flags/loader-called-once", verifCalls == 1)
 	verifAssert("flags/typecheck", verifGotTr.TypeCheck == tc)
 	verifAssert("flags/source-comments", verifGotTr.AddSourceFileComments == sc)
